@@ -835,10 +835,18 @@ fn main() {
         if p.valid() { jobs_v.push(Job { p, kind: "corpus", delay_ms: 0, scn }); }
     }
     // generated points get a seeded variant where it applies
-    let pick_scn = |p: &Point, rng: &mut Rng| Scn {
-        warmup_offer_on_answerer: rng.chance(1, 4),
-        ans_dc: if p.has_data() && !p.dcep && rng.chance(1, 2) { 1 + rng.below(2) as u8 } else { 0 },
-        ans_tracks_reversed: p.has_audio() && p.has_video() && rng.chance(1, 2),
+    // The warm-up offer is only combined with an answerer whose transceivers mirror the offer's m-lines (same kinds,
+    // same order): a discarded create_offer() already assigns a=mid values to the caller's transceivers in ITS order, and
+    // when that endpoint then answers an offer with another m-line order (offerer-only in-band channel => the answerer
+    // has no application transceiver; reversed tracks) set_remote_description binds the sections to fresh transceivers
+    // and the application's tracks are orphaned (no media) -- observed on the clean tree, see notes/C10.md.
+    let pick_scn = |p: &Point, rng: &mut Rng| {
+        let ans_tracks_reversed = p.has_audio() && p.has_video() && rng.chance(1, 2);
+        Scn {
+            warmup_offer_on_answerer: !p.dcep && !ans_tracks_reversed && rng.chance(1, 3),
+            ans_dc: if p.has_data() && !p.dcep && rng.chance(1, 2) { 1 + rng.below(2) as u8 } else { 0 },
+            ans_tracks_reversed,
+        }
     };
     // repeated SDES calls (C10-F1 / seeded C10-2 family: the state task of the direct transport racing with
     // set_remote_description / set_local_description): SRTP mode has no ICE/DTLS, a call costs ~30 ms; each runs on a
